@@ -23,6 +23,9 @@ pub struct RoundItem {
     pub canon: String,
     pub label: String,
     pub kinds: Vec<String>,
+    /// the datum contains a complex number: the round trip is judged with equal? in the engine
+    #[serde(default)]
+    pub by_equal: bool,
 }
 
 #[derive(Clone, Debug, Serialize, Deserialize)]
@@ -35,6 +38,7 @@ pub enum Case12 {
 const PRELUDE: &str = "(define (c12-wr d) (let ((p (open-output-string))) (write d p) (get-output-string p)))\n(define (c12-rd s) (read (open-input-string s)))";
 
 const PRIORITY: &[&str] = &[
+    "complex",
     "symbol-needing-bars",
     "float-special",
     "char-other",
@@ -56,10 +60,14 @@ const PRIORITY: &[&str] = &[
 ];
 
 fn item(d: &D) -> RoundItem {
+    // a datum with a complex number is judged with equal?, which NaN never satisfies
+    if d.has_complex() && d.canon().contains("f:nan") {
+        return item(&D::Int(0));
+    }
     let mut ks = std::collections::BTreeSet::new();
     d.kinds(&mut ks);
     let label = PRIORITY.iter().find(|p| ks.contains(**p)).unwrap_or(&"other").to_string();
-    RoundItem { expr: d.expr(), canon: d.canon(), label, kinds: ks.iter().map(|s| s.to_string()).collect() }
+    RoundItem { expr: d.expr(), canon: d.canon(), label, kinds: ks.iter().map(|s| s.to_string()).collect(), by_equal: d.has_complex() }
 }
 
 fn avoid(ctx: &Ctx) -> Vec<String> {
@@ -150,7 +158,11 @@ pub fn check(ctx: &Ctx, ws: &mut Workers, c: &Case12, counting: bool) -> PropRes
         Case12::Round(items) => {
             let mut steps = vec![Step::Eval { src: PRELUDE.to_string() }];
             for it in items {
-                steps.push(Step::Eval { src: format!("(let* ((d {}) (s (c12-wr d))) (list s (c12-rd s)))", it.expr) });
+                if it.by_equal {
+                    steps.push(Step::Eval { src: format!("(let* ((d {}) (s (c12-wr d))) (list s (if (equal? d (c12-rd s)) 'c12-equal (c12-rd s))))", it.expr) });
+                } else {
+                    steps.push(Step::Eval { src: format!("(let* ((d {}) (s (c12-wr d))) (list s (c12-rd s)))", it.expr) });
+                }
             }
             let r = run_case(ws, &cfg, steps);
             ctx.stats.engine_runs.fetch_add(1, std::sync::atomic::Ordering::Relaxed);
@@ -176,7 +188,7 @@ pub fn check(ctx: &Ctx, ws: &mut Workers, c: &Case12, counting: bool) -> PropRes
                 }
                 let v = st.values.iter().rev().find(|v| *v != "#void").cloned().unwrap_or_default();
                 // (s:"text" <datum>)
-                let want_suffix = format!(" {})", it.canon);
+                let want_suffix = if it.by_equal { " y:\"c12-equal\")".to_string() } else { format!(" {})", it.canon) };
                 if !(v.starts_with("(s:\"") && v.ends_with(&want_suffix)) {
                     return Err(Failure::new(format!("c12:roundtrip:differs:{}", it.label), format!("{}\n(written text, datum read back): {}", shown, v)));
                 }
